@@ -355,6 +355,9 @@ impl Translator {
                     for fld in si.fields.iter_mut() {
                         if let Ty::Struct(n) = &fld.ty {
                             if let Some(r) = al.get(n) {
+                                if fld.rust_ty == *n {
+                                    fld.rust_ty = r.clone();
+                                }
                                 fld.ty = Ty::Struct(r.clone());
                             }
                         }
